@@ -12,6 +12,7 @@ def prepare(F):
     if getattr(F, '_scale_ready', False):
         return
     scale.PRECONDS.clear()
+    scale.FACTS = F
     for f, kind in scale.kernels(F):
         if re.search(r'^arithmetic::addition::', f.name):
             scale.analyse(f, kind, lift=True)
@@ -111,4 +112,30 @@ def rescale_primitives(rep, F, rule='R-SCALE', exact=True, scale_only=True):
                 n += 1
                 v, msgs, paths = scale.analyse(fn, 'scale-only', scale_params=(2,))
                 record(rep, rule, fn, v, msgs, paths, key_suffix=':carries-requested-scale', extra=' (every path returns exactly the requested scale with a consistent integer dimension)')
+    return n
+
+
+def power_helpers(rep, F, rule='R-SCALE'):
+    """the power-of-ten helpers really return 10^k on every loop-free algorithm branch (exponent typing);
+    the 19-digit-chunk loop of ten_to_the_uint is outside the typing and reported as such"""
+    prepare(F)
+    scale.FACTS = F
+    n = 0
+    for name in ('arithmetic::ten_to_the_uint', 'arithmetic::ten_to_the_u64', 'arithmetic::ten_to_the'):
+        fn = F.fns.get(name)
+        if fn is None:
+            rep.note('anchor %s not present: skipped' % name)
+            continue
+        n += 1
+        rep.add_functions([fn.name])
+        v, msgs, paths = scale.analyse(fn, 'pow10', scale_params=(1,))
+        a = scale.analyse.last
+        key = fn.key + ':returns-10^k'
+        if v == 'violation':
+            rep.violation(rule, key, msgs[0][:500], fn.where())
+        elif a.ok > 0 and all(m == 'loop' for m in a.undec):
+            extra = '' if not a.undec else '; %d loop path(s) (the 19-digit-chunk algorithm for 20 <= k < 590) are not decided' % len(a.undec)
+            rep.ok(rule, key, '%d loop-free path(s) return exactly 10^k: exponents add up to the argument (e.g. 16*q + r with (q, r) = div_rem(k, 16))%s' % (a.ok, extra), fn.where())
+        else:
+            rep.undecided(rule, key, (msgs or ['no path decided'])[0][:200], fn.where())
     return n
